@@ -66,7 +66,9 @@ BuildFlags(flags, i, sfx, kw, acc) ==
     IF i > Len(flags) \/ acc.err # "" THEN acc
     ELSE LET f == flags[i]
              name == f.n \o sfx
-             has == KwHas(kw, name)
+             \* reserved bits are no attributes: they take no keyword - in particular not the value meant for a FIELD of the same
+             \* name (CFG-SMGR declares a field and a reserved flag both called reserved1)
+             has == KwHas(kw, name) /\ ~IsReservedName(f.n)
              v == IF has THEN KwGet(kw, name) ELSE <<name, "x", Zeros(f.s)>>
          IN IF v[2] # "x" \/ Len(v[3]) # f.s THEN [acc EXCEPT !.err = "unrepresentable-flag-value-" \o name]
             ELSE BuildFlags(flags, i + 1, sfx, kw,
@@ -130,7 +132,7 @@ Build(m, cls, id, pbf, kw) ==
     ELSE LET es == Table(m)[dn]
              st == BuildSeq(es, 1, "", [pl |-> <<>>, vals |-> <<>>, segs |-> <<>>, err |-> ""],
                             [kw |-> kw, pbf |-> pbf, mode |-> m, cls |-> cls, id |-> id, top |-> es])
-         IN [def |-> dn, pl |-> st.pl, segs |-> st.segs, names |-> {st.vals[i].n : i \in 1..Len(st.vals)}, err |-> st.err]
+         IN [def |-> dn, pl |-> st.pl, segs |-> st.segs, names |-> {st.vals[i].n : i \in {j \in 1..Len(st.vals) : ~(st.vals[j].k = "x" /\ IsReservedName(st.vals[j].n))}}, err |-> st.err]
 
 \* name of the attribute (segment) that contains the first byte where two payloads differ; "" if equal
 FirstDiffSeg(a, b, segs) ==
